@@ -295,7 +295,8 @@ class TokenParser(Parser):
                 else:
                     count = Expression(self.cstruct, count)
                     try:
-                        count = count.evaluate()
+                        # A negative count holds no elements, just like a negative result at run time
+                        count = max(0, count.evaluate())
                     except Exception:
                         pass
 
@@ -517,7 +518,8 @@ class CStyleParser(Parser):
                 else:
                     count = Expression(self.cstruct, d["count"])
                     try:
-                        count = count.evaluate()
+                        # A negative count holds no elements, just like a negative result at run time
+                        count = max(0, count.evaluate())
                     except Exception:
                         pass
 
